@@ -12,7 +12,7 @@ files = re.findall(r'^\+\+\+ b/(\S+)', open(os.path.join(src, 'patch.diff')).rea
 meta = dict(id=sid, property=prop, files_changed=files,
             author="independent sub-agent given only the property text and a scratch copy of the repository (nothing from /verif)",
             needs_to_manifest=(re.search(r'(?is)(what.{0,40}needed.*?)(\n#|\n\n\n|\Z)', notes).group(1).strip()[:1200] if re.search(r'(?is)what.{0,40}needed', notes) else 'see NOTES.md'),
-            confirmed_by_lead=dict(how="tools: /root/muttools/confirm.sh in a private scratch copy: git apply patch.diff; incremental build + whole ctest suite (120 baseline tests); demo.cpp compiled against the changed tree and against pristine /repo",
+            confirmed_by_lead=dict(how="tools/confirm_seed.sh in a private scratch worktree: git apply patch.diff; full ccache build (-O0) + whole ctest suite compared with the 120 baseline tests; demo.cpp compiled and run against the changed tree and against a pristine build of the same commit",
                                    result=confirm),
             detection=detection)
 json.dump(meta, open(os.path.join(dst, 'meta.json'), 'w'), indent=1)
